@@ -241,6 +241,8 @@ def step (_ : Unit) (line : String) : Unit × String :=
       | none => "bad-op")
     | op0 :: tyw :: rest =>
       -- `load+`, `rt+` ...: the harness loads into a pre-populated object; the result must be the same
+      -- `~`: the harness runs the line under a process-wide grouping locale; the archive format does not depend on it
+      let op0 := if op0.endsWith "~" then (op0.dropEnd 1).toString else op0
       let op := if op0.endsWith "+" then (op0.dropEnd 1).toString else op0
       (match tyOf tyw with
       | none => "bad-type"
